@@ -467,6 +467,10 @@ func (fc *FnCtx) instr(ins ssa.Instruction) {
 				if _, ok := fc.afterCall[nm]; !ok {
 					fc.afterCall[nm] = fc.cur.clone()
 					fc.afterCallBlock[nm] = x.Block()
+					if fc.afterCallReach == nil {
+						fc.afterCallReach = map[string]string{}
+					}
+					fc.afterCallReach[nm] = fc.curReach
 				}
 			}
 		}
